@@ -63,3 +63,17 @@ prop("C20",
      "deferred restore before any return, so an error does not leave the watcher in another directory.",
      "Convergence itself (which regeneration runs last relative to the last edit), fsnotify behaviour, adequacy of the 5 ms debounce: schedules cannot be enumerated statically.",
      COMMON_ASSUME)
+
+prop("C10",
+     "Totality obligations of the front end (pkg/dsl, pkg/dsl/parser, pkg/packaging, internal/validation, internal/cmd), each decided on "
+     "every path of the CFG: (P1) pair access S[i+1] over YAML node content only after the node's Kind is MappingNode (a Tag test does not "
+     "establish even length); (P2) every constant slice index is covered by a length fact (forward interval dataflow over go/cfg with "
+     "facts from comparisons, helper predicates summarised from their bodies, short-circuits); (P3) make() sized by a decoded integer is "
+     "bounded below and above; (P4) every explicit panic is the default of a switch exhaustive over a sealed dsl interface/enumeration or an "
+     "audited invariant; (P6) no break-inside-switch that spins a condition-less parser loop; (P7/P7b) every parser-built node carries "
+     "line and column taken from its position argument; (P8) big.Int values narrowed into slice indexes are bounded first; (E3) no no-op "
+     "zerolog chains; (E4) only participle errors reach ParseExpression (which panics otherwise) and every error leaving the YAML "
+     "unmarshallers carries a position.",
+     "Termination and memory use in general (only the specific loop/allocation shapes above are decided); panics inside third-party "
+     "libraries; nil dereferences other than those implied by the length facts.",
+     COMMON_ASSUME)
